@@ -18,6 +18,8 @@ pub static mut ANSWER: u32 = 0;
 pub static mut ANSWER_PAIR: (u32, u64) = (0, 0);
 pub mod mockhost {
     use super::*;
+    pub unsafe fn _export__root___task_return_five(_a: i32, _b: i32, _c: i32, _d: i32, _e: i32) {}
+    pub unsafe fn _export__root___task_return_wide(_p: *mut u8) {}
     #[allow(clippy::too_many_arguments)]
     pub unsafe fn verif_call_imp__sixteen(a0: i32, a1: i32, a2: i32, a3: i32, a4: i32, a5: i32, a6: i32, a7: i32, a8: i32, a9: i32, a10: i32, a11: i32, a12: i32, a13: i32, a14: i32, a15: i32) -> i32 {
         unsafe {
@@ -80,6 +82,13 @@ impl Guest for Impl {
             SEEN_PAIR_ARG = a;
             RET_PAIR
         }
+    }
+    // the two async exports exist for their task.return signatures only (checked on the generated declarations)
+    async fn five(a: u32) -> (u32, u32, u32, u32, u32) {
+        (a, a, a, a, a)
+    }
+    async fn wide(a: u32) -> (u32, u32, u32, u32, u32, u32, u32, u32, u32, u32, u32, u32, u32, u32, u32, u32, u32) {
+        (a, a, a, a, a, a, a, a, a, a, a, a, a, a, a, a, a)
     }
 }
 
